@@ -66,6 +66,13 @@ def cases(tier, seed):
                         c["alg"] = alg
                         c["delay"] = {"mode": "choice", "arity": 3}
                         out.append(("S-static-M%d/%s" % (M, label), c))
+                        if common.keep(k, 3) and label in (
+                                "join", "diamond", "fork", "chains22"):
+                            # behaviour must not depend on who is listening
+                            # to the library's loggers
+                            out.append(("S-static-M%d-debug-logging/%s"
+                                        % (M, label),
+                                        dict(c, loglevel="DEBUG")))
                         if common.keep(k, 4):
                             # machine ids numbered per category (two
                             # machines share a number), as in the repo's
